@@ -274,7 +274,8 @@ class Path:
 
 class LoopSpec:
     def __init__(self, k="k", invariants=(), defs=None, modifies=(), ghost_defs=None, havoc_types=None, asserts=(),
-                 split=None, exit_asserts=()):
+                 split=None, exit_asserts=(), entry=None):
+        self.entry = dict(entry or {})  # name -> expression evaluated once at loop entry (snapshot of heap state for the invariants)
         self.exit_asserts = list(exit_asserts)  # stepping stones proved, then assumed, right after the loop
         self.asserts = list(asserts)  # proved, then assumed, at the start of an arbitrary iteration
         self.split = split  # (expression text, [values]): case split for the preservation VCs
